@@ -192,6 +192,22 @@ func C19(tier rt.Tier) int {
 					}
 					mt = util.MerkleTree{}
 					mt.ComputeTree(hs)
+					// a load that is REJECTED (wrong leaf count for the tree's size, also counts on the other side of a
+					// power of two) must leave the object holding the tree it held: all three objects are judged below
+					for _, wrong := range []int{n - 1, n + 1, 2*n + 1, n / 2, 2 * n, 4*n + 3, 1} {
+						if wrong >= 1 && refSize(wrong) != len(tree) {
+							for oi, o := range []*util.MerkleTree{&mt, &mt2, &used} {
+								if err := o.SetTree(wrong, append([]string(nil), tree...)); err == nil {
+									report(n, fmt.Sprintf("SetTree accepted a tree of %d leaves (size %d) as a tree of %d leaves (object %d)", n, len(tree), wrong, oi))
+									return
+								}
+							}
+						}
+					}
+					if mt.GetRoot() != root || mt2.GetRoot() != root || used.GetRoot() != root {
+						report(n, "a rejected SetTree changed the root of the tree the object holds")
+						return
+					}
 					le, lp, ln := 0, 0, 0
 					for i := 0; i < n; i++ {
 						p := mt.GetPathByIndex(i)
@@ -269,7 +285,7 @@ func C19(tier rt.Tier) int {
 	rep.Set("traces_validated_against_impl", paths)
 	rep.Set("distinct_nontrivial", paths)
 	rep.Set("negative_verifications", negatives)
-	rep.Set("rule", fmt.Sprintf("every leaf count n = 1..%d with distinct 64-character leaf hashes, and n = 1..%d with leaf hash strings of uniform length 2, 62, 63, 65, 66, 96, 127, 128, 129, 200 (longer ones share their first 64 characters); every leaf index: path by index and by leaf lookup, verification by VerifyMerklePath and VerifyPath against a root that must equal an independent recursive reference root (own SHA3); the same path offered with every other leaf hash of the tree for n <= %d (structured neighbours, first/last/middle for larger n), with a foreign hash, with the sibling hash and with the root; export/import via GetTree/SetTree incl. rejected wrong leaf counts, also into a tree object that was used for another tree before; 'states' = tree sizes, 'transitions' = (n, index) pairs", maxN, smallN, allPairs))
+	rep.Set("rule", fmt.Sprintf("every leaf count n = 1..%d with distinct 64-character leaf hashes, and n = 1..%d with leaf hash strings of uniform length 2, 62, 63, 65, 66, 96, 127, 128, 129, 200 (longer ones share their first 64 characters); every leaf index: path by index and by leaf lookup, verification by VerifyMerklePath and VerifyPath against a root that must equal an independent recursive reference root (own SHA3); the same path offered with every other leaf hash of the tree for n <= %d (structured neighbours, first/last/middle for larger n), with a foreign hash, with the sibling hash and with the root; export/import via GetTree/SetTree incl. rejected wrong leaf counts, also into a tree object that was used for another tree before; loads with a wrong leaf count are rejected and leave the object (fresh, loaded, re-used) answering as before; 'states' = tree sizes, 'transitions' = (n, index) pairs", maxN, smallN, allPairs))
 	rep.Sample(map[string]any{"n": 5, "index": 4, "note": "odd level: last node paired with itself"})
 	rep.Sample(map[string]any{"n": 1, "index": 0})
 	return rep.Finish()
